@@ -103,10 +103,15 @@ ENTRY(h_memblock){
     if(a1){
         // shrink and reuse: smaller counts keep the buffer; the published size must still describe where the trailer is
         unsigned char* before = b.getPtr();
+        // dirty every payload byte first: a block that is re-laid-out in place must start from zero again
+        { long pay = 0; for(int k = 0; k < NB; ++k) pay += blockBytes(k, n[k]); std::memset(before, 0xA5, pay); }
         for(int k = 0; k < NB; ++k){ n2[k] = KIND[k] == 0 ? 1 : (n[k] > 0 ? irsym_choose(2) ? n[k] / 2 : 0 : 0); }
         b.resetBlocksFromSizes(n2);
         irsym_assert(b.getPtr() == before, M_REUSE_KEEP);
         checkLayout(b, n2, 0);
+        { const unsigned char* base = b.getPtr(); long pay = 0; for(int k = 0; k < NB; ++k) pay += blockBytes(k, n2[k]);
+          bool z = true; const long step = pay > 4096 ? 61 : 1; for(long i = 0; i < pay; i += step) z = z && base[i] == 0; if(pay) z = z && base[pay - 1] == 0;
+          irsym_assert(z, M_ZERO); }
         const long total2 = b.getAllocatedMemorySizeInByte();
         unsigned char* cp = new unsigned char[total2];
         std::memcpy(cp, b.getPtr(), total2);
